@@ -76,6 +76,22 @@ theorem C18_connect_flag_restored (blocking : Bool) (limit start : Nat) (first :
   unfold connectCore
   cases first <;> simp only <;> (try rfl) <;> (split <;> (try rfl) <;> (split <;> (try rfl) <;> (split <;> rfl)))
 
+theorem afterWait_blocking (o : Out) (pending : Option Nat) : (afterWait o pending).blockingAfter = o.blockingAfter := by
+  unfold afterWait; split <;> rfl
+
+/-- …also when the connection fails asynchronously (the wait ends and the socket reports an error
+such as ECONNREFUSED): the mode is restored and the caller gets −1 with that error. -/
+theorem C18_connect_flag_restored_async_failure (blocking : Bool) (limit start : Nat) (first : CResp) (waits : List WResp) (pending : Option Nat) :
+    (connectCall blocking limit start first waits pending).blockingAfter = blocking := by
+  unfold connectCall
+  rw [(remap_frame _).2.2.1]
+  unfold connectCore
+  cases first <;> simp only <;> (try rfl) <;>
+    (split <;> (try rfl) <;> (split <;> (try rfl) <;> (split <;> (first | rfl | (rw [afterWait_blocking])))))
+
+example : (connectCall true U64MAX 1000 .again [.full] (some 111)).ret = -1 ∧ (connectCall true U64MAX 1000 .again [.full] (some 111)).errno = 111 ∧
+    (connectCall true U64MAX 1000 .again [.full] (some 111)).blockingAfter = true := by decide
+
 /-- A blocking `connect` waits at most once, for at most a slice and never longer than the send time
 limit allows — in particular an interrupted attempt (EINTR) is awaited, it does not spin. -/
 theorem C18_connect_waits_bounded (blocking : Bool) (limit start : Nat) (first : CResp) (waits : List WResp) :
